@@ -48,6 +48,18 @@ class VariableCacheProvider:
     def __init__(self):
         """Create new cache."""
         self.__cache = {}
+        self.__held = []
+
+    def hold(self, value):
+        """
+        Keep a reference to a processed value.
+
+        The cache is keyed by the identity of the values, so the values must not be released (and the identity reused)
+        while the cache is in use.
+
+        :param value: the value to hold
+        """
+        self.__held.append(value)
 
     def check_id(self, identity_hash_id) -> Optional[str]:
         """
@@ -128,6 +140,7 @@ class VariableSetProcessor(Collector):
         :return:
         """
         identity_hash_id = str(id(value))
+        self.__var_cache.hold(value)
         check_id = self.__var_cache.check_id(identity_hash_id)
         if check_id is not None:
             # this means the watch result is already in the var_lookup
